@@ -2,6 +2,7 @@
 import copy
 import datetime as dt
 import json
+import re
 
 from hypothesis import strategies as st
 
@@ -79,6 +80,9 @@ class Closure:
         m, R, T = _lib()
         self.T = T
         t = m._preprocess_string(text)
+        # labels (#tag) are cut out before matching; what remains (incl. the doubled
+        # blank where a label stood) is the text the patterns see
+        t = re.sub("#[a-zA-Z0-9_-]+", "", t).strip()
         self.cleaned = t
         # 1 all matches of all patterns
         seen = {}
@@ -334,8 +338,10 @@ def _shard(arg):
 
     def body(c):
         (origin, text), ts, k = c
-        if "#" in text:
-            text = text.replace("#", "")
+        if k % 5 == 0 and " " in text:
+            # a label in the middle of the expression (cut out before matching)
+            i = text.index(" ")
+            text = text[:i] + " #tag" + text[i:]
         scorers = [SCORERS[0], SCORERS[1], SCORERS[2 + k % 3]] if not thorough else SCORERS
         run_text(acc, text, ts, origin, scorers, [0, 1, 10])
 
@@ -343,7 +349,7 @@ def _shard(arg):
     return acc
 
 
-PINNED = ["friday 9-5", "at 8", "tomorrow at 8pm", "8-10", "9-5", "monday 8 to 10", "15.11.2020 - 18.11.2020 3 days",
+PINNED = ["tomorrow #work 5pm", "12.12.2021 #trip - 14.12.2021", "#a friday #b 9-5 #c", "friday 9-5", "at 8", "tomorrow at 8pm", "8-10", "9-5", "monday 8 to 10", "15.11.2020 - 18.11.2020 3 days",
           "3 days 15.11. - 18.11.2020", "on the 5th", "am 5.", "vor 8", "5.10. 8h", "heute 8 uhr bis 9 uhr",
           "12:30 - 0:15", "5.10.2020 12:30 - 0:15", "morgen früh", "von 9 bis 17"]
 
